@@ -613,7 +613,7 @@ static void DecodeGen(Word Index) {
     /* Argumente parsen */
 
     if (CurrGenInfo.Is3) {
-        if (Memo("TSTB3")) {
+        if (Memo("TSTB3") || Memo("CMPI3") || Memo("CMPF3")) {
             CurrGenInfo.DestMode = ModReg;
             CurrGenInfo.DestPart = 0;
         } else {
